@@ -19,4 +19,24 @@ def default_engine(chk, prop, tier, seed, replay, t0):
     return chk.merge_and_report(prop, tier, seed, results, chk.ASSUME, t0)
 
 
-ENGINES = {}
+def build_parol_ls(chk):
+    """debug build of the language server from /repo's working tree, hooks on"""
+    import os, subprocess, time
+    e = chk.env()
+    e["CARGO_TARGET_DIR"] = os.path.join(chk.TARGET, "ls")
+    t = time.time()
+    with open(os.path.join(chk.WORK, "build.parol-ls.log"), "w") as lf:
+        r = subprocess.run(["cargo", "build", "--offline", "-p", "parol-ls", "--manifest-path", "/repo/Cargo.toml"],
+                           cwd="/repo", env=e, stdout=lf, stderr=subprocess.STDOUT)
+    chk.log(f"build parol-ls: rc={r.returncode} {time.time() - t:.1f}s")
+    return r.returncode == 0
+
+
+def lsp_engine(chk, prop, tier, seed, replay, t0):
+    if not build_parol_ls(chk):
+        chk.log("BROKEN: parol-ls does not build")
+        return 3
+    return default_engine(chk, prop, tier, seed, replay, t0)
+
+
+ENGINES = {p: lsp_engine for p in ("C27", "C28", "C29", "C30", "C34")}
